@@ -101,9 +101,10 @@ func init() {
 		Batches: []batchSpec{
 			{Name: "l1", World: "visitors", Weight: 5},
 			{Name: "l2", World: "visitors", Weight: 3, Park: 0.005, Gos: 0.02},
+			{Name: "real-visitors", World: "tunnel", Weight: 2},
 		},
 		Stub: []string{"network (simnet)", "scripted clients, visitors and adversaries (independent protocol implementation)", "users", "clock"},
-		Rule: "one run = 1-3 stcp/sudp/xtcp proxies with drawn allowed-user lists and a seeded sequence of visitor connections and NAT-hole requests with right/wrong signatures, run ids (own, empty, unknown, foreign) and users, interleaved with proxy close/re-open; distinct = distinct event-log hash",
+		Rule: "one run = 1-3 stcp/sudp/xtcp proxies with drawn allowed-user lists and a seeded sequence of visitor connections and NAT-hole requests with right/wrong signatures, run ids (own, empty, unknown, foreign) and users, interleaved with proxy close/re-open; a fifth of the runs (batch real-visitors) are the tunnel world restricted to stcp/xtcp proxies: real frpc visitors are admitted and their streams (1 B to MBs, idle for up to 700 s, half-closes) compared byte by byte with what the other end wrote; distinct = distinct event-log hash",
 	})
 	reg(&propSpec{ID: "C15", Level: "fault_enumeration",
 		Batches: []batchSpec{
